@@ -10,7 +10,7 @@ import gen
 from gen import A, C, N, call, fcall, lam, mcall
 
 ID = "C19"
-COQ_FILES = ["FA/Proofs/AggregateProofs.v", "FA/Properties/C19.v"]
+COQ_FILES = ["FA/Proofs/AggregateProofs.v", "FA/Proofs/AggregateSem.v", "FA/Properties/C19.v"]
 NAMES = ["len", "Count", "Sum", "Max", "Min"]
 
 LEVEL = ("Coq theorems over the executable model `agg` whose rule table is regenerated from the source on every run: "
